@@ -14,7 +14,8 @@ Fixpoint tabs (n : nat) : string := match n with O => "" | S k => (tab ++ tabs k
 (* the writers' common safename: quote unless [A-Za-z0-9_]* *)
 Definition w_safename (s : string) : string := if str_forallb is_safechar s then s else quote s.
 (* clafer_writer.safename: also quotes the words the writer itself emits as keywords *)
-Definition clafer_keywords : list string := ["abstract"; "xor"; "or"; "mux"; "not"].
+Definition clafer_keywords : list string :=
+  ["abstract"; "xor"; "or"; "mux"; "not"; "true"; "false"; "integer"; "double"; "string"; "boolean"].
 Definition cl_safename (s : string) : string :=
   if existsb (String.eqb s) clafer_keywords then quote s else w_safename s.
 
